@@ -248,13 +248,19 @@ impl PlutusList {
             Some(definite) => definite,
             None => self.elems.is_empty(),
         };
+        let view = if need_deduplication {
+            Some(self.deduplicated_view())
+        } else {
+            None
+        };
+        let len = view.as_ref().map(|v| v.len()).unwrap_or(self.elems.len());
         if use_definite_encoding {
-            serializer.write_array(cbor_event::Len::Len(self.elems.len() as u64))?;
+            serializer.write_array(cbor_event::Len::Len(len as u64))?;
         } else {
             serializer.write_array(cbor_event::Len::Indefinite)?;
         }
-        if need_deduplication {
-            for element in self.deduplicated_view() {
+        if let Some(view) = view {
+            for element in view {
                 element.serialize(serializer)?;
             }
         } else {
